@@ -208,6 +208,22 @@ where
     }
 }
 
+/// stands in for RootCompilationScope::generics_from_names: same result (one XGeneric type per name and the list of
+/// their identifiers) built without the Vec -> array `try_into` of the original, on which CBMC reports spurious
+/// deallocation-size failures in some harnesses (the harnesses do not depend on generic parameter names)
+pub(crate) fn stub_generics_from_names<W, R, T, const N: usize>(
+    this: &mut RootCompilationScope<W, R, T>,
+    names: [&'static str; N],
+) -> ([std::sync::Arc<crate::xtype::XType>; N], Vec<crate::Identifier>) {
+    let mut ids = Vec::with_capacity(N);
+    let arr = std::array::from_fn(|i| {
+        let id = stub_identifier(this, names[i]);
+        ids.push(id);
+        std::sync::Arc::new(crate::xtype::XType::XGeneric(id))
+    });
+    (arr, ids)
+}
+
 /// `Rc::drop_slow` / `Arc::drop_slow` run when the last strong reference goes away; stubbing them by no-ops leaks the
 /// contents instead of running their (recursive, for XValue/XExpr/XType) drop glue.  Sound for every property that does
 /// not depend on the side effects of Drop; never used in the C09 accounting harnesses.
@@ -222,11 +238,91 @@ macro_rules! native_harness {
         #[kani::stub(std::collections::hash_map::RandomState::new, crate::verif_common::stub_rs)]
         #[kani::stub(crate::root_compilation_scope::RootCompilationScope::identifier, crate::verif_common::stub_identifier)]
         #[kani::stub(crate::root_compilation_scope::RootCompilationScope::add_func, crate::verif_common::capture_add_func)]
+        #[kani::stub(crate::root_compilation_scope::RootCompilationScope::generics_from_names, crate::verif_common::stub_generics_from_names)]
         #[kani::stub(crate::xexpr::XStaticFunction::to_function, crate::verif_common::trip_to_function)]
         #[kani::stub(crate::runtime_scope::RuntimeScope::eval, crate::verif_common::mini_eval)]
         #[kani::stub(std::rc::Rc::drop_slow, crate::verif_common::leak_rc)]
         #[kani::stub(std::sync::Arc::drop_slow, crate::verif_common::leak_arc)]
+        #[kani::stub(crate::xvalue::ManagedXValue::new, crate::xvalue::verif_kani::value_new_unlimited)]
         $(#[$m])*
         fn $name() $body
     };
+}
+
+// ---- recording evaluator: which pre-evaluated arguments a native evaluates, in which order, with which tail flag ----
+pub(crate) static mut EVAL_TAGS: [i64; 8] = [0; 8];
+pub(crate) static mut EVAL_TAILS: [bool; 8] = [false; 8];
+pub(crate) static mut EVAL_N: usize = 0;
+/// tag of a pre-evaluated argument: ints carry their value, bools 1000/1001, error values -(1 + second byte of the message)
+pub(crate) fn tag_of_value<W, R, T>(v: &crate::root_runtime_scope::EvaluatedValue<W, R, T>) -> i64 {
+    match v {
+        Ok(m) => match &m.value {
+            XValue::Int(LazyBigint::Short(s)) => *s,
+            XValue::Bool(b) => 1000 + *b as i64,
+            _ => 5000,
+        },
+        Err(e) => {
+            let b = e.error.as_bytes();
+            -(1 + if b.len() > 1 { b[1] as i64 } else { 0 })
+        }
+    }
+}
+pub(crate) fn rec_eval<'a, W: 'static, R: 'static, T: 'static>(
+    _this: &RuntimeScope<'a, W, R, T>,
+    expr: &XExpr<W, R, T>,
+    _rt: RTCell<W, R, T>,
+    tail: bool,
+) -> crate::root_runtime_scope::RuntimeResult<TailedEvalResult<W, R, T>>
+where
+    'a: 'a,
+{
+    match expr {
+        XExpr::Dummy(v) => {
+            unsafe {
+                if EVAL_N < 8 {
+                    EVAL_TAGS[EVAL_N] = tag_of_value(v);
+                    EVAL_TAILS[EVAL_N] = tail;
+                }
+                EVAL_N += 1;
+            }
+            Ok(TailedEvalResult::from(v.clone()))
+        }
+        _ => panic!("tripwire: eval of a non-Dummy expression must be unreachable in this harness"),
+    }
+}
+pub(crate) fn eval_log() -> (usize, [i64; 8], [bool; 8]) {
+    unsafe { (EVAL_N, EVAL_TAGS, EVAL_TAILS) }
+}
+/// error values "e0".."e9" (tag -(1 + '0' + i))
+pub(crate) fn err_tag(i: u8) -> i64 {
+    -(1 + (b'0' + i) as i64)
+}
+pub(crate) fn err_i<W, R, T>(i: u8, rt: &RTCell<W, R, T>) -> XExpr<W, R, T> {
+    err(match i { 0 => "e0", 1 => "e1", 2 => "e2", _ => "e3" }, rt)
+}
+
+/// like native_harness!, with the recording evaluator instead of the plain restricted one
+#[macro_export]
+macro_rules! native_harness_rec {
+    ($(#[$m:meta])* fn $name:ident() $body:block) => {
+        #[kani::proof]
+        #[kani::stub(std::collections::hash_map::RandomState::new, crate::verif_common::stub_rs)]
+        #[kani::stub(crate::root_compilation_scope::RootCompilationScope::identifier, crate::verif_common::stub_identifier)]
+        #[kani::stub(crate::root_compilation_scope::RootCompilationScope::add_func, crate::verif_common::capture_add_func)]
+        #[kani::stub(crate::root_compilation_scope::RootCompilationScope::generics_from_names, crate::verif_common::stub_generics_from_names)]
+        #[kani::stub(crate::xexpr::XStaticFunction::to_function, crate::verif_common::trip_to_function)]
+        #[kani::stub(crate::runtime_scope::RuntimeScope::eval, crate::verif_common::rec_eval)]
+        #[kani::stub(std::rc::Rc::drop_slow, crate::verif_common::leak_rc)]
+        #[kani::stub(std::sync::Arc::drop_slow, crate::verif_common::leak_arc)]
+        #[kani::stub(crate::xvalue::ManagedXValue::new, crate::xvalue::verif_kani::value_new_unlimited)]
+        $(#[$m])*
+        fn $name() $body
+    };
+}
+/// outcome of a native call, by reference: Some(tag) for a value / error value, None otherwise
+pub(crate) fn outcome_tag<W, R, T>(r: &crate::root_runtime_scope::RuntimeResult<TailedEvalResult<W, R, T>>) -> Option<i64> {
+    match r {
+        Ok(TailedEvalResult::Value(v)) => Some(tag_of_value(v)),
+        _ => None,
+    }
 }
